@@ -7,7 +7,9 @@ from ..absval import abstractor
 from ..engine import CHS, SCHED, SEQ, Engine
 from ..model import AnalysisError, dotted, norm
 from ..report import Report
-from .common import arg_of, av, calls_to, must_pass, one_call, own_nodes, returns
+from .. import sym
+from .common import must_pass
+from .symutil import S, all_of, any_lit, arg, has, is_, mentions, sh
 
 EXPLANATION = (
     "SIB: Sequence.estimate_added_delay and Sequence._add obtain the next slot from the same function (_Schedule.make_next_pulse_slot, directly resp. through add_pulse, which forwards its parameters unchanged) "
@@ -17,7 +19,12 @@ EXPLANATION = (
     "is op.tf + fall_time(...) for pulses and op.tf + 2*rise_time for non-pulses; the start time is max(t0, *phase barriers). ALIGN: the alignment target is the max over channels of the end "
     "(with fall time iff at_rest) and each channel is delayed by target - its *plain* end. NOT decided: minimality ('earliest instant') and numerical fall times."
 )
-ASSUMPTIONS = ["provenance equality is structural (roots and wrapper tags of the argument expressions)"]
+ASSUMPTIONS = ["sibling agreement is equality of the symbolic normal forms of the argument expressions (pstatic/sym.py): temporaries, private helpers and conditional forms do not matter", "state mutation between two reads of the same attribute path is not modelled by the normal form"]
+
+
+def _param_index(f, name: str) -> int:
+    ps = f.params[1:] if f.cls is not None else f.params
+    return ps.index(name) if name in ps else -1
 
 
 def run(E: Engine, rep: Report, tier: str) -> dict:
@@ -27,40 +34,43 @@ def run(E: Engine, rep: Report, tier: str) -> dict:
     mn = E.method(SCHED, "make_next_pulse_slot")
     fad = E.method(SCHED, "_find_add_delay")
     vap = E.method(SEQ, "_validate_add_protocol")
+    Sadd, Sest, Sap, Smn, Sfad = S(E, add), S(E, est), S(E, ap), S(E, mn), S(E, fad)
 
     # ---------------------------------------------------------------- SIB
-    c_add = one_call(E, add, ap)
-    c_est = one_call(E, est, mn)
-    pairs = [("pulse", "pulse"), ("channel", "channel"), ("phase_barrier_ts", "phase_barrier_ts"), ("protocol", "protocol")]
-    for pa, pe in pairs:
-        a1, a2 = arg_of(c_add, ap, pa), arg_of(c_est, mn, pe)
+    c_add = [l for l in Sadd.calls("add_pulse") if l.fn == add.short]
+    c_est = [l for l in Sest.calls("make_next_pulse_slot") if l.fn == est.short]
+    if not c_add or not c_est:
+        raise AnalysisError(f"anchor: _add calls add_pulse {len(c_add)}x, estimate_added_delay calls make_next_pulse_slot {len(c_est)}x")
+    ca, ce = c_add[-1], c_est[-1]
+    for pn in ("pulse", "channel", "phase_barrier_ts", "protocol"):
+        a1, a2 = arg(ca, _param_index(ap, pn), pn), arg(ce, _param_index(mn, pn), pn)
         if a1 is None or a2 is None:
-            rep.violation("SIB", f"estimate-vs-add|{pa}", f"argument '{pa}' is not passed on one side (add: {norm(a1) if a1 is not None else None}, estimate: {norm(a2) if a2 is not None else None})", E.where(est, c_est))
+            rep.violation("SIB", f"estimate-vs-add|{pn}", f"argument '{pn}' is not passed on one side (add: {sh(a1)}, estimate: {sh(a2)})", E.where(est, ce.node))
             continue
-        v1, v2 = av(E, add, a1), av(E, est, a2)
-        rep.check(v1 == v2, "SIB", f"estimate-vs-add|{pa}", f"same provenance on both sides ({len(v1.roots)} roots)",
-                  f"estimate_added_delay and _add compute '{pa}' differently: only in _add {sorted(v1.roots - v2.roots)[:6]} {sorted(v1.tags - v2.tags)}, only in estimate {sorted(v2.roots - v1.roots)[:6]} {sorted(v2.tags - v1.tags)}", E.where(est, c_est))
+        rep.check(a1 == a2, "SIB", f"estimate-vs-add|{pn}", "same symbolic value on both sides", f"estimate_added_delay and _add compute '{pn}' differently: _add passes {sh(a1, 200)}, the estimate passes {sh(a2, 200)}", E.where(est, ce.node))
     # the validated pulse on both sides comes from _validate_and_adjust_pulse(pulse, channel, phase_ref)
-    vadj = E.method(SEQ, "_validate_and_adjust_pulse")
-    for f in (add, est):
-        cs = calls_to(E, f, vadj)
-        full = [e.node for _n, e in cs if len(e.node.args) + len(e.node.keywords) >= 3]
-        rep.check(bool(full), "SIB", f"{f.short}|validates-with-phase-ref", "_validate_and_adjust_pulse(pulse, channel, phase_ref)", f"{f.short} no longer passes the phase reference to _validate_and_adjust_pulse", E.where(f))
+    refs = {}
+    for f, Sf in ((add, Sadd), (est, Sest)):
+        cs = [l for l in Sf.calls("_validate_and_adjust_pulse") if l.fn == f.short]
+        ref = arg(cs[-1], 2, "phase_ref") if cs else None
+        refs[f.short] = ref
+        rep.check(ref is not None and ref != sym.NONE and mentions(ref, "last_phase"), "SIB", f"{f.short}|validates-with-phase-ref", "_validate_and_adjust_pulse(pulse, channel, phase_ref) with the targets' common phase reference", f"{f.short} no longer passes the targets' phase reference to _validate_and_adjust_pulse (got {sh(ref)})", E.where(f))
     # add_pulse forwards its parameters unchanged
-    c_fw = one_call(E, ap, mn)
-    fw_ok = True
-    for i, pn in enumerate(["pulse", "channel", "phase_barrier_ts", "protocol", "phase_drift_params"]):
-        a = arg_of(c_fw, mn, pn)
-        if not (isinstance(a, ast.Name) and a.id == pn):
+    fw = [l for l in Sap.calls("make_next_pulse_slot") if l.fn == ap.short]
+    fw_ok = bool(fw)
+    for pn in ("pulse", "channel", "phase_barrier_ts", "protocol", "phase_drift_params"):
+        a = arg(fw[-1], _param_index(mn, pn), pn) if fw else None
+        if a != ("name", pn):
             fw_ok = False
-    rep.check(fw_ok, "SIB", "_Schedule.add_pulse|forwards-parameters", "add_pulse hands its own parameters to make_next_pulse_slot unchanged", f"add_pulse alters an argument before computing the slot: {norm(c_fw)}", E.where(ap, c_fw))
-    # the estimate returns slot.ti - last.tf
-    ok = False
-    for r in returns(est):
-        v = av(E, est, r.value)
-        ok = "Sub" in v.tags and any(x.endswith("make_next_pulse_slot().ti") for x in v.roots) and any(x.endswith("_last().tf") for x in v.roots) and not ({"Add", "Mult"} & v.tags)
-    rep.check(ok, "SIB", "estimate_added_delay|returns-slot.ti-last.tf", "returns next_slot.ti - last.tf", "the estimate is no longer slot.ti - last.tf (add_pulse inserts exactly slot.ti - last.tf)", E.where(est))
-    rep.floor("SIB", 8)
+    rep.check(fw_ok, "SIB", "_Schedule.add_pulse|forwards-parameters", "add_pulse hands its own parameters to make_next_pulse_slot unchanged", f"add_pulse alters an argument before computing the slot: {sh(fw[-1].value) if fw else '?'}", E.where(ap))
+    # the estimate returns slot.ti - last.tf, which is what add_pulse inserts
+    m = has(Sest.ret, "Q_slot.ti - Q_s[Q_c][-1].tf")
+    ok = m is not None and m["Q_slot"] == ce.value and m["Q_c"] == arg(ce, _param_index(mn, "channel"), "channel")
+    rep.check(ok, "SIB", "estimate_added_delay|returns-slot.ti-last.tf", "returns next_slot.ti - last.tf", f"the estimate is no longer slot.ti - last.tf (add_pulse inserts exactly slot.ti - last.tf): {sh(Sest.ret, 200)}", E.where(est))
+    dl = [l for l in Sap.calls("add_delay") if l.fn == ap.short]
+    m = has(arg(dl[-1], 0, "duration"), "Q_slot.ti - Q_s[Q_c][-1].tf") if dl else None
+    rep.check(m is not None and fw and m["Q_slot"] == fw[-1].value and m["Q_c"] == ("name", "channel"), "SIB", "_Schedule.add_pulse|inserts-slot.ti-last.tf", "add_pulse inserts a delay of slot.ti - last.tf", "add_pulse no longer inserts slot.ti - last.tf before the pulse", E.where(ap))
+    rep.floor("SIB", 9)
 
     # -------------------------------------------------------------- GUARD
     seqmod = E.P.module("pulser.sequence.sequence")
@@ -70,31 +80,28 @@ def run(E: Engine, rep: Report, tier: str) -> dict:
         if f.module.name != "pulser.sequence._schedule":
             continue
         for n in ast.walk(f.node):
-            if isinstance(n, ast.Compare) and "protocol" in norm(n.left) and isinstance(n.comparators[0], ast.Constant) and isinstance(n.comparators[0].value, str):
-                used.add(n.comparators[0].value)
+            if isinstance(n, ast.Compare) and len(n.ops) == 1:
+                for x, y in ((n.left, n.comparators[0]), (n.comparators[0], n.left)):
+                    if "protocol" in norm(x) and isinstance(y, ast.Constant) and isinstance(y.value, str):
+                        used.add(y.value)
             if isinstance(n, ast.keyword) and n.arg == "protocol" and isinstance(n.value, ast.Constant):
                 used.add(n.value.value)
     rep.check(used <= protocols and {"no-delay", "wait-for-all"} <= used, "GUARD", "scheduler|protocol-literals⊆PROTOCOLS", f"{sorted(used)} ⊆ {sorted(protocols)}", f"protocol literals {sorted(used - protocols)} are not in PROTOCOLS {sorted(protocols)} / expected literals missing", E.where(mn))
     # _find_add_delay is called under `protocol != "no-delay"` only
-    ab = abstractor(E.flow(mn))
-    for _n, e in calls_to(E, mn, fad):
-        dnf = ab.enclosing_conditions(e.node)
-        ok = len(dnf) == 1 and len(dnf[0]) == 1 and dnf[0][0].atom is not None and dnf[0][0].atom.rel == "NotEq" and "protocol" in dnf[0][0].atom.lhs.roots and "const:'no-delay'" in dnf[0][0].atom.rhs.roots
-        rep.check(ok, "GUARD", "make_next_pulse_slot|conflict-scan-iff-not-no-delay", "other channels are scanned iff protocol != 'no-delay'", f"the conflict scan is conditioned on {[' AND '.join(l.show() for l in c) for c in dnf]}", E.where(mn, e.node))
-    # conflict test
-    ok_conf = False
-    ok_skip = False
-    # the innermost loop variable is the slot being examined
-    inner_vars = [n.target.id for n in own_nodes(fad) if isinstance(n, ast.For) and isinstance(n.target, ast.Name)]
-    for n in own_nodes(fad):
-        if isinstance(n, ast.BoolOp) and isinstance(n.op, ast.Or) and len(n.values) == 2:
-            a, b = n.values
-            if isinstance(a, ast.BinOp) and isinstance(a.op, ast.BitAnd) and norm(b).replace('"', "'") == "protocol == 'wait-for-all'":
-                sides = {norm(a.left).replace(" ", ""), norm(a.right).replace(" ", "")}
-                examined = {f"{v}.targets" for v in inner_vars}
-                ok_conf = bool(sides & examined) and "self[channel][-1].targets" in sides
-        if isinstance(n, ast.If) and norm(n.test) == "ch == channel" and isinstance(n.body[0], ast.Continue):
-            ok_skip = True
+    for l in [l for l in Smn.calls("_find_add_delay") if l.fn == mn.short]:
+        cj = sym.conj_of(l.cond)
+        ok = len(cj) == 1 and is_(cj[0], "protocol != 'no-delay'") is not None
+        rep.check(ok, "GUARD", "make_next_pulse_slot|conflict-scan-iff-not-no-delay", "other channels are scanned iff protocol != 'no-delay'", f"the conflict scan is conditioned on {sh(l.cond)}", E.where(mn, l.node))
+    # conflict test: the update of the start time happens iff the examined slot's targets overlap the new pulse's, or wait-for-all
+    returned = {t[1] for t in sym.subterms(Sfad.ret) if t[0] == "loop"}  # loop-carried variables that reach the result
+    upd = [l for l in Sfad.logged("assign") if l.fn == fad.short and l.loops and l.target is not None and l.target[1] in returned and mentions(l.value, "fall_time")]
+    ok_conf = ok_skip = bool(upd)
+    for l in upd:
+        mc = None
+        for x in sym.conj_of(l.cond):
+            mc = mc or is_(x, "(Q_op.targets & Q_s[channel][-1].targets) or protocol == 'wait-for-all'")
+        ok_conf = ok_conf and mc is not None and _is_examined_slot(mc["Q_op"], l)
+        ok_skip = ok_skip and any(is_(x, "Q_ch != channel") is not None for x in sym.conj_of(l.cond))
     rep.check(ok_conf, "GUARD", "_find_add_delay|conflict=overlap-or-wait-for-all", "conflict iff the examined slot's targets overlap the new pulse's targets, or protocol == 'wait-for-all'", "the conflict test is no longer `<examined slot>.targets & self[channel][-1].targets or protocol == 'wait-for-all'` (it must compare the targets the other pulse had, not the other channel's current targets)", E.where(fad))
     rep.check(ok_skip, "GUARD", "_find_add_delay|skips-own-channel", "the channel itself is skipped", "the scan no longer skips the channel the pulse is added to", E.where(fad))
     for f in (add, est):
@@ -102,90 +109,76 @@ def run(E: Engine, rep: Report, tier: str) -> dict:
     rep.floor("GUARD", 6)
 
     # --------------------------------------------------------------- FLOW
+    # every use of another channel's slot end is extended by that slot's ramp-down
+    FALL = "Q_op.tf + Q_op.type.fall_time(Q_cs.channel_obj, in_eom_mode=Q_cs.in_eom_mode()) + QS_r"
+    RISE = "Q_op.tf + 2 * Q_cs.channel_obj.rise_time + QS_r"
     n_uses = 0
-    for n in own_nodes(fad):
-        tgt = None
-        if isinstance(n, ast.Assign) and "op.tf" in norm(n.value):
-            tgt = n.value
-        elif isinstance(n, ast.Compare) and "op.tf" in norm(n.left):
-            tgt = n.left
-        if tgt is None:
+    kinds = set()
+    for l in Sfad.log:
+        if l.fn != fad.short or l.kind not in ("test", "assign") or l.value is None:
+            continue
+        ends = [s for s in sym.subterms(l.value) if s[0] == "attr" and s[2] == "tf" and s[1][0] == "elem"]
+        if not ends:
             continue
         n_uses += 1
-        v = av(E, fad, tgt)
-        has_fall = any(r.endswith(".fall_time()") for r in v.roots)
-        has_rise = any(r.endswith(".rise_time") for r in v.roots) and "Mult" in v.tags and "const:2" in v.roots
-        rep.check("Add" in v.tags and (has_fall or has_rise), "FLOW", f"_find_add_delay|op.tf+ramp-down|{'fall' if has_fall else 'rise' if has_rise else 'none'}|{type(n).__name__}", "the other channel's end is extended by the fall time (pulse) or 2*rise_time (non-pulse)",
-                  f"`{norm(tgt)}` uses another channel's end without its fall time: a pulse could start while the other is still ramping down", E.where(fad, n))
-    if n_uses < 3:
-        rep.error(f"only {n_uses} uses of op.tf found in _find_add_delay (expected 3)")
-    # fall_time evaluated in the other channel's EOM state
-    ok = all("in_eom_mode=in_eom_mode" in norm(n) for n in own_nodes(fad) if isinstance(n, ast.Call) and isinstance(n.func, ast.Attribute) and n.func.attr == "fall_time")
-    rep.check(ok, "FLOW", "_find_add_delay|fall_time-in-other-channel-eom-state", "fall_time(this_chobj, in_eom_mode=<that channel's state>)", "fall_time is no longer evaluated with the other channel's EOM state", E.where(fad))
+        mf, mr = has(l.value, FALL), has(l.value, RISE)
+        kind = "fall" if mf else "rise" if mr else "none"
+        kinds.add((kind, l.kind))
+        m = mf or mr
+        same_ch = m is not None and _schedule_of_slot(m["Q_op"]) == m["Q_cs"]
+        rep.check(m is not None and same_ch, "FLOW", f"_find_add_delay|op.tf+ramp-down|{kind}|{l.kind}", "the other channel's end is extended by the fall time (pulse) or 2*rise_time (non-pulse), evaluated for that channel and its EOM state",
+                  f"`{sh(l.value)}` uses another channel's end without its own ramp-down (fall_time(<that channel>, in_eom_mode=<that channel's state>) for pulses, 2*rise_time otherwise): a pulse could start while the other is still ramping down", E.where(fad, l.node))
+    if not {("fall", "test"), ("rise", "test"), ("fall", "assign")} <= kinds:
+        rep.error(f"_find_add_delay: expected a fall-time test, a rise-time test and a fall-time update of the start time, found {sorted(kinds)}")
     # start = max(t0, *phase barriers)
-    okb = False
-    for n in own_nodes(mn):
-        if isinstance(n, ast.Call) and (dotted(n.func) or "") == "max" and any(isinstance(a, ast.Starred) and norm(a.value) == "phase_barrier_ts" for a in n.args):
-            okb = True
-    rep.check(okb, "FLOW", "make_next_pulse_slot|start>=phase-barriers", "current_max_t = max(t0, *phase_barrier_ts)", "the phase-shift barriers no longer bound the start time from below", E.where(mn))
+    slot = [l for l in Smn.calls("_TimeSlot") if l.fn == mn.short][-1]
+    ti = arg(slot, 1, "ti")
+    rep.check(has(ti, "max(Q_t0, *phase_barrier_ts)") is not None, "FLOW", "make_next_pulse_slot|start>=phase-barriers", "current_max_t = max(t0, *phase_barrier_ts)", "the phase-shift barriers no longer bound the start time from below", E.where(mn))
     # Pulse.fall_time: both waveforms contribute their END buffer, combined by max, plus the rise time
     pft = E.fn("pulser.pulse.Pulse.fall_time")
-    mx = [n for n in own_nodes(pft) if isinstance(n, ast.Call) and (dotted(n.func) or "") == "max" and len(n.args) == 2]
-    ok = False
-    if mx:
-        a, b = mx[0].args
-        ta, tb = norm(a).replace("self.amplitude", "W"), norm(b).replace("self.detuning", "W")
-        both_end = all(isinstance(x, ast.Subscript) and isinstance(x.slice, ast.Constant) and x.slice.value == 1 and "modulation_buffers" in norm(x.value) for x in (a, b))
-        ok = ta == tb and both_end and "self.amplitude" in norm(a) and "self.detuning" in norm(b)
-    rep.check(ok, "FLOW", "Pulse.fall_time|max-of-both-end-buffers", "fall time uses the END modulation buffer ([1]) of both the amplitude and the detuning, combined by max", f"Pulse.fall_time combines {[norm(x) for x in (mx[0].args if mx else [])]}: amplitude and detuning must both contribute their end buffer", E.where(pft))
-    ret = returns(pft)
-    v = av(E, pft, ret[0].value) if ret else None
-    rep.check(v is not None and "Add" in v.tags and any(r.endswith("rise_time") for r in v.roots), "FLOW", "Pulse.fall_time|plus-rise_time", "fall time = rise time + end buffer", "Pulse.fall_time no longer adds the rise time", E.where(pft))
+    r = S(E, pft).ret
+    m = has(r, "max(self.amplitude.modulation_buffers(channel, eom=in_eom_mode)[1], self.detuning.modulation_buffers(channel, eom=in_eom_mode)[1]) + QS_r")
+    rep.check(m is not None, "FLOW", "Pulse.fall_time|max-of-both-end-buffers", "fall time uses the END modulation buffer ([1]) of both the amplitude and the detuning, combined by max", f"Pulse.fall_time is {sh(r, 220)}: amplitude and detuning must both contribute their end buffer (modulation_buffers(channel, eom=in_eom_mode)[1]), combined by max", E.where(pft))
+    m = has(r, "(Q_e.rise_time if in_eom_mode else channel.rise_time) + max(Q_a, Q_b)")
+    rep.check(m is not None and mentions(m["Q_e"], "eom_config"), "FLOW", "Pulse.fall_time|plus-rise_time", "fall time = rise time (the EOM's in EOM mode) + end buffer", f"Pulse.fall_time no longer adds the rise time of the mode in use: {sh(r, 220)}", E.where(pft))
     from .c10 import _lookback
 
     _lookback(E, rep)
-    rep.floor("FLOW", 7)
+    rep.floor("FLOW", 6)
 
     # -------------------------------------------------------------- ALIGN
     al = E.method(SEQ, "align")
-    gd = E.method(SEQ, "get_duration")
-    tf_ok = False
-    delta_ok = None
-    for n in own_nodes(al):
-        if isinstance(n, ast.Assign) and isinstance(n.targets[0], ast.Name) and n.targets[0].id == "tf" and isinstance(n.value, ast.Call) and (dotted(n.value.func) or "") == "max":
-            src = norm(n.value)
-            v = av(E, al, n.value)
-            tf_ok = any(r.endswith("get_duration()") for r in v.roots) and "arg<-at_rest" in v.roots
-        if isinstance(n, ast.Assign) and isinstance(n.targets[0], ast.Name) and n.targets[0].id == "delta" and isinstance(n.value, ast.BinOp) and isinstance(n.value.op, ast.Sub):
-            right = n.value.right
-            call = _resolve_duration_call(al, right)
-            if call is None:
-                delta_ok = (False, norm(right))
-            else:
-                kw = [k for k in call.keywords if k.arg == "include_fall_time"]
-                plain = (not kw or (isinstance(kw[0].value, ast.Constant) and kw[0].value.value is False)) and len(call.args) <= 1
-                delta_ok = (plain and norm(n.value.left) == "tf", norm(call))
-    rep.check(tf_ok, "ALIGN", "Sequence.align|target=max(end incl. fall time iff at_rest)", "tf = max over channels of get_duration(id, include_fall_time=at_rest)", "the alignment target is no longer the max of the channel ends with include_fall_time=at_rest", E.where(al))
-    if delta_ok is None:
-        raise AnalysisError("anchor: `delta = tf - ...` not found in Sequence.align")
-    rep.check(delta_ok[0], "FLOW", "Sequence.align|delta-subtracts-plain-end", "delta = tf - get_duration(id)  (the delay is appended at the plain end)",
-              f"align delays a channel by tf - {delta_ok[1]}: the subtrahend includes the channel's own fall time although the delay is appended at its plain end, so channels do not end together at the latest at-rest time", E.where(al))
-    rep.floor("ALIGN", 1)
+    Sal = S(E, al)
+    dl = [l for l in Sal.calls("_delay") if l.fn == al.short]
+    if not dl:
+        raise AnalysisError("anchor: Sequence.align no longer calls _delay")
+    for l in dl:
+        d, ch = arg(l, 0, "duration"), arg(l, 1, "channel")
+        m = has(d, "max(Q_all) - Q_self.get_duration(Q_id)") or has(d, "max(Q_all) - Q_self.get_duration(Q_id, include_fall_time=False)")
+        tgt_ok = m is not None and m["Q_all"][0] == "comp" and is_(m["Q_all"][2], "Q_self.get_duration(Q_e, include_fall_time=at_rest)") is not None and m["Q_all"][3] and m["Q_all"][3][0][0] == ("name", "channels")
+        rep.check(tgt_ok, "ALIGN", "Sequence.align|target=max(end incl. fall time iff at_rest)", "tf = max over channels of get_duration(id, include_fall_time=at_rest)", f"the alignment target is no longer the max over the given channels of get_duration(id, include_fall_time=at_rest): delay = {sh(d, 200)}", E.where(al, l.node))
+        plain = m is not None and m["Q_id"] == ch
+        rep.check(plain, "FLOW", "Sequence.align|delta-subtracts-plain-end", "delta = tf - get_duration(id)  (the delay is appended at the plain end)",
+                  f"align delays a channel by {sh(d, 200)}: the subtrahend must be the channel's own plain end get_duration(id) -- with its fall time included, channels do not end together at the latest at-rest time", E.where(al, l.node))
+        rep.check(has(d, "Q_s[Q_id].adjust_duration(Q_x)", {"Q_id": ch}) is not None and any(is_(x, "0 < Q_d") is not None for x in sym.conj_of(l.cond)), "ALIGN", "Sequence.align|positive-adjusted-delay", "only a positive delay is added, after adjust_duration on that channel", "the alignment delay is no longer adjusted to the channel's clock / guarded by delta > 0", E.where(al, l.node))
+    rep.floor("ALIGN", 2)
     return {"uses_of_other_channel_end": n_uses}
 
 
-def _resolve_duration_call(f, e: ast.AST):
-    """get_duration(...) call denoted by e: directly, or through `d[id]` with d = {id: get_duration(...) ...}."""
-    if isinstance(e, ast.Call) and isinstance(e.func, ast.Attribute) and e.func.attr == "get_duration":
-        return e
-    if isinstance(e, ast.Subscript) and isinstance(e.value, ast.Name):
-        for n in ast.walk(f.node):
-            if isinstance(n, ast.Assign) and isinstance(n.targets[0], ast.Name) and n.targets[0].id == e.value.id and isinstance(n.value, ast.DictComp):
-                v = n.value.value
-                if isinstance(v, ast.Call) and isinstance(v.func, ast.Attribute) and v.func.attr == "get_duration":
-                    return v
-    if isinstance(e, ast.Name):
-        for n in ast.walk(f.node):
-            if isinstance(n, ast.Assign) and isinstance(n.targets[0], ast.Name) and n.targets[0].id == e.id:
-                return _resolve_duration_call(f, n.value)
-    return None
+def _is_examined_slot(t, l) -> bool:
+    """The term is the element of the innermost loop (the slot being examined)."""
+    return t[0] == "elem" and bool(l.loops) and t[1] == l.loops[-1]
+
+
+def _schedule_of_slot(t):
+    """For op = elem(<channel schedule>[::-1]) (or reversed(...), or <schedule>.slots) return the channel-schedule term."""
+    if t[0] != "elem":
+        return None
+    it = t[1]
+    while it[0] == "idx" and it[2][0] == "slice":
+        it = it[1]
+    if it[0] == "call" and it[1] == ("name", "reversed") and it[2]:
+        it = it[2][0]
+    if it[0] == "attr" and it[2] == "slots":
+        it = it[1]
+    return it
